@@ -5,14 +5,14 @@
    TLC prints the (generated) scenario together with Plan(scenario); the driver needs the plan to know which
    library calls to make and drops scenarios the documentation does not determine.               *)
 EXTENDS CliUniverse, TraceIO
-VARIABLE l
-Init == l = 1
-Next == l <= N /\ l' = l + 1
-Spec == Init /\ [][Next]_l
+VARIABLES l, cur          \* cur = scenario and plan of line l, computed once per line
+vars == <<l, cur>>
 Scen(r) == IF Has(r, "gen") THEN Mk({r.gen.S[i] : i \in DOMAIN r.gen.S}, r.gen.k) ELSE r.sc
-Out(r) == LET s == Scen(r)
-              p == Plan(s)
-          IN [id |-> r.id, sc |-> IF Has(r, "gen") THEN s ELSE <<>>, tasks |-> p.tasks, unspec |-> p.unspec, hazard |-> p.hazard,
-              known |-> p.known, inplace |-> p.inplace]
-Emit == l <= N => PrintT(<<"PLAN", ToJson(Out(Trace[l]))>>)
+Render(i) == IF i > N THEN <<>> ELSE LET s == Scen(Trace[i]) IN [s |-> s, p |-> Plan(s)]
+Init == l = 1 /\ cur = Render(1)
+Next == l <= N /\ l' = l + 1 /\ cur' = Render(l + 1)
+Spec == Init /\ [][Next]_vars
+Out == [id |-> Trace[l].id, sc |-> IF Has(Trace[l], "gen") THEN cur.s ELSE <<>>, tasks |-> cur.p.tasks,
+        unspec |-> cur.p.unspec, hazard |-> cur.p.hazard, known |-> cur.p.known, inplace |-> cur.p.inplace]
+Emit == l <= N => PrintT(<<"PLAN", ToJson(Out)>>)
 =============================================================================
